@@ -57,7 +57,7 @@ def BuiltFor : DataType → Bool → B → Prop
       v.isSome = nl ∧ BuiltFor kf.dataType kf.nullable ks ∧ BuiltFor vf.dataType vf.nullable vs
   | dt, nl, .struct _ _ v fs _ _ _ => ∃ fields : Fields, dt = .struct fields ∧ v.isSome = nl ∧ BuiltForL fields fs
   | dt, nl, .dictionary _ idx vals _ =>
-    ∃ (k vdt : DataType), dt = .dictionary k vdt ∧ BuiltFor k nl idx ∧ BuiltFor vdt false vals
+    ∃ (k vdt : DataType), dt = .dictionary k vdt ∧ isIntDT k = true ∧ BuiltFor k nl idx ∧ BuiltFor vdt false vals
   | dt, _, .union _ fs _ _ _ => ∃ (ufs : UFields) (mode : UnionMode), dt = .union ufs mode ∧ BuiltForU ufs fs 0
 def BuiltForL : Fields → BL → Prop
   | .nil, .nil => True
